@@ -277,81 +277,227 @@ def consistency_result(ctx, c):
     return best
 
 
+def _is_statement(ctx, c, t):
+    """the term is one of the statements handed to the function (an element of a parameter slice), not a number"""
+    t = strip_mut(t)
+    while t.tag == 'via':
+        t = strip_mut(t[2])
+    return t.tag in ('elem', 'elemat') and any(x.tag == 'param' for x in walk(t)) and not any(x.tag == 'call' for x in walk(t))
+
+
+def _coherent(ctx, c, dbb, it, lt):
+    """the length lt is len(X.commitments) * bits with X the statement whose position the index term `it` is (or lt is X itself)"""
+    st = None
+    for x in walk(lt):
+        if x.tag == 'field' and x[1] == 'commitments':
+            st = strip_mut(x[2])
+    mul = any(x.tag == 'call' and x[1].endswith('checked_mul') for x in walk(lt))
+    if st is None and _is_statement(ctx, c, lt):
+        st, mul = strip_mut(lt), True          # the selected statement itself is carried; its length is computed from it afterwards
+        while st.tag == 'via':
+            st = strip_mut(st[2])
+    if it is not None and it.tag == 'const' and it[1] == 0:
+        return st is not None and st.tag == 'elemat' and st[2].tag == 'const' and st[2][1] in ('first', 0) and mul
+    # index is the enumerate index of the iterator whose element is st
+    # ... and both come from the same enumerate(zip(statements, ..)) driver
+    idxs = [y for y in walk(it)] if it is not None else []
+    isrc = [y[1] for y in idxs if y.tag == 'index']
+    good = st is not None and mul and bool(isrc) and any(src_of_elem(st) in zip_parts(z) for z in isrc)
+    if st is not None and mul and isrc and not good:
+        # the index is drawn from 0..len(X) zipped, in one driver, with X itself: the position in X all the same
+        X = src_of_elem(st)
+        for z in isrc:
+            if z.tag == 'range' and z[1].tag == 'const' and z[1][1] == 0 and z[2].tag == 'call' and z[2][1].endswith('::len') and X is not None \
+                    and strip_mut(z[2][2][0]) is strip_mut(X) and set(ctx.adapters(it)) == set(ctx.adapters(lt)):
+                lps = ctx.enclosing_loops(c, dbb)
+                drv = lps[-1].iter_term if lps else None
+                parts = set()
+                for y in (walk(drv) if drv is not None else ()):
+                    if y.tag == 'zip':
+                        parts |= {strip_mut(p).id for p in zip_parts(y)}
+                if z.id in parts and strip_mut(X).id in parts:
+                    good = True
+    if st is not None and mul and isrc and not good:
+        # an index loop `for i in k..len(X)` with st = X[i]: the index is the position of st in X by construction of the loop
+        from bpsa.terms import index_view, _view_component
+        X = src_of_elem(st)
+        for z in isrc:
+            v_ = index_view(z) if z.tag == 'range' else None
+            if v_ is not None and X is not None and _view_component(v_, X)[0] and it.tag == 'index':
+                # the element must be selected with that very counter (skip(k) of the walk <-> counter from k)
+                skipped = v_.tag == 'adapt' and v_[1] == 'skip'
+                via_skip = 'skip' in ctx.adapters(lt)
+                if skipped == via_skip:
+                    good = True
+    return good
+
+
+_FLIP = {'Gt': 'Lt', 'Lt': 'Gt', 'Ge': 'Le', 'Le': 'Ge'}
+_NEG = {'Gt': 'Le', 'Le': 'Gt', 'Ge': 'Lt', 'Lt': 'Ge'}
+
+
+def _max_guard(ctx, dep, lt, carried, want_stmt=False):
+    """is this controlling switch `candidate length > (or >=) the length carried so far`, taken on the arm that leads to the update?"""
+    s, cond, sure, maybe = dep
+    cond = strip_mut(cond)
+    if cond.tag != 'binop' or cond[1] not in _FLIP:
+        return False
+    op, a, b = cond[1], strip_mut(cond[2]), strip_mut(cond[3])
+    want = canon(strip_mut(lt))
+    if want_stmt:
+        # the statement itself is carried: the comparison is between the commitment counts of this member and of the carried one
+        # (every member has the same bit length, so the counts order the lengths)
+        def bare(y):
+            y = strip_mut(y)
+            while y.tag == 'via':
+                y = strip_mut(y[2])
+            return y
+
+        def count_of(x):
+            x = bare(ctx.eng.expand(x))
+            if x.tag == 'call' and x[1].endswith('::len') and len(x[2]) == 1:
+                f = bare(x[2][0])
+                if f.tag == 'field' and f[1] == 'commitments':
+                    return bare(f[2])
+            return None
+        ca, cb = count_of(a), count_of(b)
+        st = bare(lt)
+        if ca is not None and cb is not None and ca is st and carried(cb):
+            pass
+        elif ca is not None and cb is not None and cb is st and carried(ca):
+            op = _FLIP[op]
+        else:
+            return False
+        if '0' in sure and 'otherwise' not in sure:
+            op = _NEG[op]
+        elif '0' in sure:
+            return False
+        return op in ('Gt', 'Ge')
+
+    def same(x):
+        return canon(strip_mut(ctx.eng.expand(x))) == want
+    if carried(b) and same(a):
+        pass
+    elif carried(a) and same(b):
+        op = _FLIP[op]
+    else:
+        return False
+    if '0' in sure and 'otherwise' not in sure:
+        op = _NEG[op]           # the update sits on the arm where the comparison is false
+    elif '0' in sure:
+        return False
+    return op in ('Gt', 'Ge')
+
+
 def check_consistency_pair(ctx, rule):
-    """every definition of the returned index is accompanied (same block) by a definition of the returned length computed
-    from the statement at that index"""
+    """The member that sizes the batch is the largest one: the returned (length, index) start as (length of member 0, 0); they are
+    replaced -- together, by the length and the position of one and the same member -- exactly when that member's length exceeds
+    the length carried so far; nothing else changes them.  Read in the loop form (two locals updated in one block) and in the
+    accumulator form (a pair handed through `fold` / `try_fold`)."""
     rep = ctx.rep
     c = consistency_fn(ctx, rule)
     if c is None:
         return
     rep.saw_body(c)
     ix = ctx.eng.bx(c)
+    cfg = ctx.cfgof(c)
     cr = consistency_result(ctx, c)
     if cr is None:
         rep.anchor_missing(rule, rule + '/consistency/pair', 'cannot find the (length, index / selected statement) result of %s' % c.path)
         return
     bb, len_l, idx_l, _fname = cr
-    ldefs = {d[0]: d for d in ix.whole_defs(len_l)}
-    idefs = ix.whole_defs(idx_l)
+    inits, takes, det = [], [], []
     ok = True
-    det = []
-    for d in idefs:
-        dbb = d[0]
-        it = ctx.eng.rvalue(c, dbb, d[1], d[3]['rv']) if d[2] == 'assign' else None
-        ld = ldefs.get(dbb)
-        if ld is None:
+    carried = None
+    if len(ix.whole_defs(idx_l)) >= 2:
+        ldefs = {d[0]: d for d in ix.whole_defs(len_l)}
+        for d in ix.whole_defs(idx_l):
+            dbb = d[0]
+            it = ctx.eng.rvalue(c, dbb, d[1], d[3]['rv']) if d[2] == 'assign' else None
+            ld = ldefs.get(dbb)
+            if ld is None:
+                ok = False
+                det.append('index assigned at bb%d without a length assignment in the same block' % dbb)
+                continue
+            lt = ctx.eng.rvalue(c, ld[0], ld[1], ld[3]['rv']) if ld[2] == 'assign' else ctx.eng.call_result(c, ld[0])
+            lt = ctx.eng.expand(lt)
+            (inits if it is not None and it.tag == 'const' and it[1] == 0 else takes).append((dbb, it, lt))
+
+        def carried(x):
+            return x.tag == 'lv' and x[2] == len_l
+    else:
+        # the pair is the accumulator of a fold: (length, index) = fields of one loop-carried tuple
+        t_idx = ctx.eng.local(c, bb, 0, idx_l)
+        t_len = ctx.eng.local(c, bb, 0, len_l)
+
+        def carried_fields(t):
+            return [(x[1], strip_mut(x[2])) for x in walk(t) if x.tag == 'field' and str(x[1]).isdigit() and strip_mut(x[2]).tag == 'lv']
+        fi, fl = carried_fields(t_idx), carried_fields(t_len)
+        pair = [(a, b, lv) for a, lv in fi for b, lv2 in fl if lv is lv2 and a != b]
+        if not pair:
             ok = False
-            det.append('index assigned at bb%d without a length assignment in the same block' % dbb)
-            continue
-        lt = ctx.eng.rvalue(c, ld[0], ld[1], ld[3]['rv']) if ld[2] == 'assign' else ctx.eng.call_result(c, ld[0])
-        lt = ctx.eng.expand(lt)
-        # the length must be len(X.commitments) * X.bit_length with X the statement at that index
-        st = None
-        for x in walk(lt):
-            if x.tag == 'field' and x[1] == 'commitments':
-                st = strip_mut(x[2])
-        mul = any(x.tag == 'call' and x[1].endswith('checked_mul') for x in walk(lt))
-        if it is not None and it.tag == 'const' and it[1] == 0:
-            good = st is not None and st.tag == 'elemat' and st[2].tag == 'const' and st[2][1] in ('first', 0) and mul
+            det.append('the returned index is neither a local updated in a loop nor a component of a pair carried through a fold: %s' % short(t_idx, 100))
         else:
-            # index is the enumerate index of the iterator whose element is st
-            # ... and both come from the same enumerate(zip(statements, ..)) driver
-            idxs = [y for y in walk(it)] if it is not None else []
-            isrc = [y[1] for y in idxs if y.tag == 'index']
-            good = st is not None and mul and bool(isrc) and any(src_of_elem(st) in zip_parts(z) for z in isrc)
-            if st is not None and mul and isrc and not good:
-                # the index is drawn from 0..len(X) zipped, in one driver, with X itself: the position in X all the same
-                X = src_of_elem(st)
-                for z in isrc:
-                    if z.tag == 'range' and z[1].tag == 'const' and z[1][1] == 0 and z[2].tag == 'call' and z[2][1].endswith('::len') and X is not None \
-                            and strip_mut(z[2][2][0]) is strip_mut(X) and set(ctx.adapters(it)) == set(ctx.adapters(lt)):
-                        lps = ctx.enclosing_loops(c, dbb)
-                        drv = lps[-1].iter_term if lps else None
-                        parts = set()
-                        for y in (walk(drv) if drv is not None else ()):
-                            if y.tag == 'zip':
-                                parts |= {strip_mut(p).id for p in zip_parts(y)}
-                        if z.id in parts and strip_mut(X).id in parts:
-                            good = True
-            if st is not None and mul and isrc and not good:
-                # an index loop `for i in k..len(X)` with st = X[i]: the index is the position of st in X by construction of the loop
-                from bpsa.terms import index_view, _view_component
-                X = src_of_elem(st)
-                for z in isrc:
-                    v_ = index_view(z) if z.tag == 'range' else None
-                    if v_ is not None and X is not None and _view_component(v_, X)[0] and it.tag == 'index':
-                        # the element must be selected with that very counter (skip(k) of the walk <-> counter from k)
-                        skipped = v_.tag == 'adapt' and v_[1] == 'skip'
-                        via_skip = 'skip' in ctx.adapters(lt)
-                        if skipped == via_skip:
-                            good = True
+            ki, kl, lv = pair[0]
+            acc_l, h = lv[2], lv[3]
+            ty = c.local_ty(acc_l)
+            loop_blocks = cfg.loops.get(h, set())
+            # what the accumulator starts from: the tuple moved into it before the loop
+            srcs, work = set(), [acc_l]
+            while work:
+                l = work.pop()
+                if l in srcs:
+                    continue
+                srcs.add(l)
+                for d in ix.whole_defs(l):
+                    if d[0] not in loop_blocks and d[2] == 'assign' and d[3]['rv']['k'] == 'use' and d[3]['rv']['op'].get('k') in ('move', 'copy') and not d[3]['rv']['op']['place']['p']:
+                        work.append(d[3]['rv']['op']['place']['l'])
+            for b in c.blocks:
+                if b['cleanup'] or b.get('dead') or b['i'] not in cfg.reach_set:
+                    continue
+                for si, s_ in enumerate(b['stmts']):
+                    if s_['k'] != 'assign' or s_['place']['p'] or s_['rv']['k'] != 'aggregate' or s_['rv']['kind'].get('a') != 'tuple' or len(s_['rv']['ops']) != 2 \
+                            or c.local_ty(s_['place']['l']) != ty:
+                        continue
+                    inside = b['i'] in loop_blocks
+                    if not inside and s_['place']['l'] not in srcs:
+                        continue
+                    ops = s_['rv']['ops']
+                    it = ctx.eng.operand(c, b['i'], si, ops[int(ki)])
+                    lt = ctx.eng.expand(ctx.eng.operand(c, b['i'], si, ops[int(kl)]))
+                    if not inside:
+                        inits.append((b['i'], it, lt))
+                        continue
+                    si_, sl_ = strip_mut(it), strip_mut(lt)
+                    if si_.tag == 'field' and si_[1] == ki and strip_mut(si_[2]) is lv and sl_.tag == 'field' and sl_[1] == kl and strip_mut(sl_[2]) is lv:
+                        continue            # the pair handed on unchanged
+                    takes.append((b['i'], it, lt))
+
+            def carried(x):
+                return x.tag == 'field' and x[1] == kl and strip_mut(x[2]) is lv
+    for dbb, it, lt in inits:
+        good = it is not None and it.tag == 'const' and it[1] == 0 and _coherent(ctx, c, dbb, it, lt)
         det.append('bb%d: index=%s length=%s' % (dbb, short(it, 60) if it is not None else None, short(lt, 120)))
         ok = ok and good
-    if len(idefs) < 2:
+    guards = []
+    for dbb, it, lt in takes:
+        good = _coherent(ctx, c, dbb, it, lt)
+        det.append('bb%d: index=%s length=%s' % (dbb, short(it, 60) if it is not None else None, short(lt, 120)))
+        ok = ok and good
+        deps = ctx.control_deps(c, dbb)
+        gs = [d for d in deps if _max_guard(ctx, d, lt, carried, _is_statement(ctx, c, lt))]
+        guards.append((dbb, deps, gs))
+    if ok and (not inits or not takes):
         ok = False
         det.append('expected an initial and an updating definition of the index')
     rep.check(ok, rule, rule + '/consistency/pair', 'returned (length, index) are always assigned together from the same statement: ' + '; '.join(det),
               'returned (length, index) pair is not coherent: ' + '; '.join(det), ctx.where(c, bb))
+    for dbb, deps, gs in guards:
+        good = bool(gs) and len(gs) == len(deps)
+        rep.check(good, rule, rule + '/consistency/max-guard',
+                  'the (length, index) pair is replaced exactly when the member\'s length exceeds the length carried so far: %s' % '; '.join(short(d[1], 100) for d in gs),
+                  'the update of the (length, index) pair is not guarded by `length of this member > length carried so far` alone: it is controlled by %s'
+                  % ([short(d[1], 160) for d in deps] or 'no condition at all'), ctx.where(c, dbb))
 
 
 def check_dynamic_pairs(ctx, rule, v, r):
